@@ -374,7 +374,15 @@ def run_C03(tier, rng, chk):
                 e = boundary_errs(rng, cfg, kind)
             else:
                 e = g0.errs()
-            var = twin_variant(rng, cfg, grp, e) if rng.random() < 0.6 else None
+            zz = rng.random()
+            if zz < 0.06:
+                # a group whose blocks are all 0x0000 (or all 0xFFFF): whatever a "nothing received" /
+                # "all ones" shortcut looks at, the flagged blocks of the twin differ from it
+                grp = (0, 0, 0, 0) if zz < 0.04 else (0xFFFF, 0xFFFF, 0xFFFF, 0xFFFF)
+                kind = "0A" if zz < 0.04 else "other"
+                if all(x == 0 for x in e):
+                    e = tuple(rng.choice([0, 3]) for _ in range(4))
+            var = twin_variant(rng, cfg, grp, e) if (rng.random() < 0.6 or zz < 0.06) else None
             L.append(P(0, *grp, e))
             if var is None:
                 L.append(P(1, *grp, e))
